@@ -1,4 +1,5 @@
 import BS.Properties.C14
+import BS.Properties.C14l
 #print axioms BS.Cluster.schedule_fits
 #print axioms BS.Cluster.schedule_spec
 #print axioms BS.Cluster.schedule_head
@@ -11,3 +12,10 @@ import BS.Properties.C14
 #print axioms BS.Cluster.machprocs_pos
 #print axioms BS.Cluster.start_bounded
 #print axioms BS.Cluster.idle_means_zero
+#print axioms BS.Limiter.limiter_inv
+#print axioms BS.Limiter.at_most_p_running
+#print axioms BS.Limiter.exclusive_runs_alone
+#print axioms BS.Limiter.exclusive_takes_all
+#print axioms BS.Limiter.idle_all_tokens
+#print axioms BS.Limiter.idle_serves_any
+#print axioms BS.Limiter.release_unheld
